@@ -40,9 +40,9 @@ func init() {
 		New:          func() any { return &C04Case{} },
 		Check:        func(c any) Result { return checkC04(c.(*C04Case)) },
 		Quick:        1200,
-		Thorough:     8000,
+		Thorough:     60000,
 		RaceQuick:    60,
-		RaceThorough: 600,
+		RaceThorough: 4000,
 	})
 }
 
